@@ -190,7 +190,42 @@ def probe_interleaved_backward(inp: Dict[str, Any]) -> Dict[str, Any]:
     return {"ok": not bad, "observed": bad, "expected": "backward uses the tolerance/method of its own forward", "predicate": "", "fields": {"kinds": ["interleaved_backward"] if bad else []}}
 
 
-PROBES = {"history": probe_history, "threads": probe_threads, "dict_reuse": probe_dict_reuse, "interleaved_backward": probe_interleaved_backward}
+def probe_object_reuse(inp: Dict[str, Any]) -> Dict[str, Any]:
+    """the same Electronic_Structure driver object (and settings dictionary) used for a sequence of different molecules:
+    every result equals the fresh-object result, and coming back to the first molecule reproduces it bitwise"""
+    import torch
+
+    from seqm.ElectronicStructure import Electronic_Structure
+    from seqm.Molecule import Molecule
+    from seqm.seqm_functions.constants import Constants
+
+    sp = esh.settings(method=inp["method"], eps=1e-9, converger=inp.get("converger", [1]), analytical=inp.get("analytical"))
+    sp["elements"] = [0] + sorted({z for n in inp["seq"] for z in esh.GEOMS[n][0]})
+    es = Electronic_Structure(sp)
+    const = Constants()
+    outs = []
+    bad = []
+    for nm in inp["seq"]:
+        s, x, ch, mu = esh.batch([nm])
+        with contextlib.redirect_stdout(io.StringIO()):
+            mol = Molecule(const, sp, torch.as_tensor(x), torch.as_tensor(s))
+            es(mol)
+        outs.append((nm, mol.Etot.detach().numpy().copy(), mol.force.detach().numpy().copy(), mol.q.detach().numpy().copy()))
+    fresh = {}
+    for nm in set(inp["seq"]):
+        r = esh.run_named([nm], esh.settings(method=inp["method"], eps=1e-9, converger=inp.get("converger", [1]), analytical=inp.get("analytical")))
+        fresh[nm] = (r["Etot"], r["force"], r["q"])
+    for nm, e, f, q in outs:
+        d = max(float(np.abs(e - fresh[nm][0]).max()), float(np.abs(f - fresh[nm][1]).max()), float(np.abs(q - fresh[nm][2]).max()))
+        if d > 1e-9:
+            bad.append(f"{nm} on the re-used driver differs from a fresh driver by {d:.3e}")
+    first = [o for o in outs if o[0] == inp["seq"][0]]
+    if len(first) > 1 and not (np.array_equal(first[0][1], first[-1][1]) and np.array_equal(first[0][2], first[-1][2])):
+        bad.append(f"returning to {inp['seq'][0]} on the same driver does not reproduce its first result bitwise")
+    return {"ok": not bad, "observed": bad, "expected": "fresh or reused driver/dictionary objects give the same numbers", "predicate": "", "fields": {"kinds": ["object_reuse"] if bad else [], "method": inp["method"]}}
+
+
+PROBES = {"history": probe_history, "object_reuse": probe_object_reuse, "threads": probe_threads, "dict_reuse": probe_dict_reuse, "interleaved_backward": probe_interleaved_backward}
 
 
 def gen_cases(ctx: Ctx):
@@ -212,6 +247,8 @@ def gen_cases(ctx: Ctx):
     if ctx.thorough:
         cases.append(("dict_reuse", {"a": "pm6sp_so2_anal", "b": "pm6sp_so2_anal"}))
     cases.append(("interleaved_backward", {"method_b": "PM3"}))
+    cases.append(("object_reuse", {"method": "AM1", "seq": ["h2o", "ch4", "nh3", "h2o"], "converger": [1]}))
+    cases.append(("object_reuse", {"method": str(rng.choice(["PM3", "MNDO", "PM6_SP"])), "seq": ["ch2o", "h2o", "ch2o"], "converger": [[2], [0, 0.3]][int(rng.integers(0, 2))], "analytical": [True]}))
     return cases
 
 
